@@ -18,6 +18,15 @@ type TopicSelectorStore struct {
 	skipSelect bool
 }
 
+// matchCacheEntry is the cached result of a match.
+// The topic selector and the topic are stored alongside the result because
+// the cache key (a concatenation) does not identify the pair uniquely.
+type matchCacheEntry struct {
+	topicSelector string
+	topic         string
+	match         bool
+}
+
 func (tss *TopicSelectorStore) match(topic, topicSelector string) bool {
 	// Always do an exact matching comparison first
 	// Also check if the topic selector is the reserved keyword *
@@ -28,9 +37,10 @@ func (tss *TopicSelectorStore) match(topic, topicSelector string) bool {
 	var k string
 	if tss.cache != nil {
 		k = "m_" + topicSelector + "_" + topic
-		value, found := tss.cache.Get(k)
-		if found {
-			return value.(bool)
+		if value, found := tss.cache.Get(k); found {
+			if e, ok := value.(matchCacheEntry); ok && e.topicSelector == topicSelector && e.topic == topic {
+				return e.match
+			}
 		}
 	}
 
@@ -43,7 +53,7 @@ func (tss *TopicSelectorStore) match(topic, topicSelector string) bool {
 	// See https://github.com/yosida95/uritemplate/pull/7
 	match := r.MatchString(topic)
 	if tss.cache != nil {
-		tss.cache.Set(k, match, 4)
+		tss.cache.Set(k, matchCacheEntry{topicSelector, topic, match}, 4)
 	}
 
 	return match
